@@ -204,8 +204,107 @@ let explore fx (sc : scen) (maxstates : int) =
   List.iter (fun (c, m) -> Printf.printf "  [%s] %s\n" c m) (List.rev !firsterr);
   !nerr
 
+(* ------------------------------------------------------------------ script mode (see harness/wb_close.c) *)
+let script () =
+  let fx = cur_fixes in
+  let s = ref (init PhProto false false) in
+  let opened = ref false in
+  let nctx = ref 0 and nep = ref 0 and npipe = ref 0 in
+  let seen_done = ref 0 and seen_rets = ref 0 in
+  let overrides : (int * int) list ref = ref [] in
+  let do_steps ls = List.iter (fun l -> match step fx !s l with Some s' -> s := settle fx s' | None -> ()) ls in
+  let observe rv =
+    let all_done = List.map (fun (a, r) -> (int_of_n a, int_of_n r)) !s.done0 in
+    let fresh = List.filteri (fun i _ -> i >= !seen_done) all_done in
+    seen_done := List.length all_done;
+    let fresh = List.map (fun (a, r) -> if r = 0 && List.mem_assoc a !overrides then (a, List.assoc a !overrides) else (a, r)) fresh in
+    let fresh = List.sort compare fresh in
+    let hv = function None -> "ok" | Some e -> string_of_int (int_of_n e) in
+    let hs =
+      if not !opened then "-" else
+      String.concat "," (("s:" ^ hv (find_sock !s))
+        :: List.init !nctx (fun k -> Printf.sprintf "c%d:%s" k (hv (find_ctx !s (ni k))))
+        @ List.init !nep (fun k -> Printf.sprintf "ep%d:%s" k (hv (find_ep !s (ni k))))
+        @ List.init !npipe (fun k -> Printf.sprintf "p%d:%s" k (hv (find_pipe !s (ni k))))) in
+    Printf.printf "rv=%d done=%s h=%s\n" rv
+      (if fresh = [] then "-" else String.concat "," (List.map (fun (a, r) -> Printf.sprintf "a%d:%d" a r) fresh)) hs in
+  let last_ret () =
+    let rl = !s.rets in
+    let n = List.length rl in
+    if n > !seen_rets then begin
+      seen_rets := n;
+      let ((_, rv), _) = List.nth rl (n - 1) in int_of_n rv end
+    else 0 in
+  let idx tok off = int_of_string (String.sub tok off (String.length tok - off)) in
+  (try while true do
+    let line = input_line stdin in
+    let toks = split_ws line in
+    (* "+a<i>:<rv>": the protocol completed that operation for reasons of its own during this command *)
+    let extra = List.filter (fun x -> String.length x > 1 && x.[0] = '+') toks in
+    let toks = List.filter (fun x -> not (String.length x > 1 && x.[0] = '+')) toks in
+    let apply_extra () =
+      List.iter (fun x ->
+        match String.split_on_char ':' (String.sub x 2 (String.length x - 2)) with
+        | [a; rv] -> do_steps [LComplete (nn (int_of_string a), nn (int_of_string rv))]
+        | _ -> ()) extra in
+    let observe rv = apply_extra (); observe rv in
+    match toks with
+    | [] -> ()
+    | "mark" :: k :: _ ->
+        Printf.printf "mark %s\n" k;
+        s := init PhProto false false; opened := false; nctx := 0; nep := 0; npipe := 0;
+        seen_done := 0; seen_rets := 0; overrides := []
+    | "open" :: _ :: ph :: latch :: finic :: _ ->
+        let ph = (match ph with "0" -> PhMsgq | "1" -> PhProto | _ -> PhFini) in
+        s := init ph (latch = "1") (finic = "1"); opened := true;
+        observe 0
+    | "ctx" :: rest ->
+        (match rest with
+         | "nosup" :: _ -> observe (match find_sock !s with Some e -> int_of_n e | None -> 9)   (* the protocol has no contexts *)
+         | _ ->
+           let before = List.length !s.ctxs in
+           do_steps [LSpawn UCtxOpen];
+           let rv = last_ret () in
+           if rv = 0 then incr nctx
+           else if List.length !s.ctxs > before then failwith "script: a failed ctx_open left a context behind";
+           observe rv)
+    | ("dialer" | "listener" as w) :: _ ->
+        do_steps [LSpawn (UEpCreate (w = "dialer"))];
+        let rv = last_ret () in
+        if rv = 0 then incr nep;
+        observe rv
+    | "conn" :: ep :: _ ->
+        let before = List.length !s.pipes in
+        do_steps [LPipeCreate (ni (idx ep 2))];
+        if List.length !s.pipes > before then begin
+          if List.mem "reject" toks then begin
+            (* the protocol's pipe_start refused it: nni_pipe_close + nni_pipe_rele by the core *)
+            do_steps [LSpawn (UPipeClose (ni before))]; ignore (last_ret ())
+          end;
+          incr npipe; observe 0 end
+        else observe 3
+    | ("recv" | "send") :: tgt :: a :: flag :: _ ->
+        let ai = idx a 1 in
+        let blocks = (flag = "b") in
+        if not blocks && String.length flag > 1 then overrides := (ai, int_of_string (String.sub flag 1 (String.length flag - 1))) :: !overrides;
+        let k = if tgt = "s" then None else Some (ni (idx tgt 1)) in
+        do_steps [LSpawn (USubmit (k, nn ai, blocks))];
+        ignore (last_ret ());
+        observe 0
+    | "close" :: tgt :: _ ->
+        let u = if tgt = "s" then USockClose
+                else if tgt.[0] = 'c' then UCtxClose (ni (idx tgt 1))
+                else if tgt.[0] = 'e' then UEpClose (ni (idx tgt 2))
+                else UPipeClose (ni (idx tgt 1)) in
+        do_steps [LSpawn u];
+        observe (last_ret ())
+    | "probe" :: _ -> observe 0
+    | _ -> observe 3
+  done with End_of_file -> ())
+
 let () =
   match Array.to_list Sys.argv with
+  | _ :: "script" :: _ -> script ()
   | _ :: "--flags" :: _ ->
       Printf.printf "ephold=%b epid=%b ctxfini=%b lateop=%b ctxopen=%b\n" c10_FX_EPHOLD c10_FX_EPID c10_FX_CTXFINI c10_FX_LATEOP c10_FX_CTXOPEN
   | _ :: "explore" :: rest ->
